@@ -108,6 +108,7 @@ Proof.
     try match goal with r : sres |- _ => destruct r; try congruence end;
     try match goal with r : wres |- _ => destruct r; try contradiction end;
     step_inv H; try exact I; try congruence;
+    try (match goal with E : sres_eqb _ _ = true |- _ => simpl in E; discriminate E end);
     (apply (static_all s); [exact I| | | | | |]; view_goals);
     repeat match goal with E : c_hold _ = None |- _ => rewrite E; clear E end; auto.
 Qed.
